@@ -10,6 +10,10 @@ import json, os, re, subprocess, time, hashlib, glob, concurrent.futures
 import genpipe, idlmini
 
 VERIF = os.path.dirname(os.path.abspath(__file__))
+# evidence and replays of an evaluation run against a scratch tree (VERIF_REPO set) go to a scratch place
+_ALT = os.environ.get("VERIF_REPO", "/repo") != "/repo"
+EVIDENCE = os.path.join(os.environ.get("VERIF_ALT_OUT", "/tmp/verif_alt"), "evidence") if _ALT else os.path.join(VERIF, "evidence")
+REPLAYS = os.path.join(os.environ.get("VERIF_ALT_OUT", "/tmp/verif_alt"), "replays") if _ALT else os.path.join(VERIF, "replays")
 KIND = {"bool": "kBool", "i8": "kI8", "i16": "kI16", "i32": "kI32", "i64": "kI64", "double": "kDouble", "string": "kString", "binary": "kBinary"}
 
 
@@ -101,6 +105,17 @@ def go_tables(models, prog, gen_dir, pkgs):
 
     for e in struct_entries(models, prog):
         cands = by_norm.get(norm_name(e["go_hint"]), [])
+        if len(cands) > 1:
+            # names that differ only in capitalisation: the generator only ever upper-cases letters
+            hint = re.sub(r"[^A-Za-z0-9]", "", e["go_hint"])
+            scored = []
+            for cand in cands:
+                cc = re.sub(r"[^A-Za-z0-9]", "", cand)
+                if len(cc) == len(hint) and all(a == b or a == b.upper() for a, b in zip(cc, hint)):
+                    scored.append((sum(a != b for a, b in zip(cc, hint)), cand))
+            scored.sort()
+            if scored and (len(scored) == 1 or scored[0][0] < scored[1][0]):
+                cands = [scored[0][1]]
         if len(cands) != 1:
             problems.append("cannot find the generated Go type for %s (candidates %s)" % (e["qual"], cands))
             continue
@@ -151,21 +166,28 @@ def run(prop, spec, tier, scratch, known, vcheck):
         open(os.path.join(cat, os.path.basename(f)), "w").write(open(f).read())
     jobs, tc_violations = [], []
     tmpl = open(os.path.join(VERIF, "c02_harness.go.tmpl")).read()
+    # variants: the default generator options, and (for the programs listed in spec["slim_programs"])
+    # the `slim` option, whose Read/Write go through lib/go/encoder.go instead of inline protocol calls
+    work = [(f, "", "go:package_prefix=verifgen/", mod) for f in files]
     for f in files:
+        if os.path.basename(f) in spec.get("slim_programs", {}).get(tier, []):
+            os.makedirs(os.path.join(mod, "slim"), exist_ok=True)
+            work.append((f, "slim", "go:package_prefix=verifgen/slim/,slim", os.path.join(mod, "slim")))
+    for f, variant, genopt, outdir in work:
         prog = os.path.splitext(os.path.basename(f))[0]
-        rc, msg = genpipe.run_frugal(exe, os.path.join(cat, os.path.basename(f)), "go:package_prefix=verifgen/", mod)
+        label = prog + ("[%s]" % variant if variant else "")
+        # a program with includes is generated the way users do it: one recursive run (-r), i.e. one
+        # generator instance for the program and everything it includes
+        rc, msg = genpipe.run_frugal(exe, os.path.join(cat, os.path.basename(f)), genopt, outdir, recursive=bool(models[prog]["includes"]))
         if rc != 0:
             inconclusive.append("compiler failed on %s: %s" % (prog, msg[-400:]))
             continue
-        # included programs are generated too (-r is not used: generate each explicitly)
-        for inc in models[prog]["includes"]:
-            genpipe.run_frugal(exe, os.path.join(cat, inc), "go:package_prefix=verifgen/", mod)
         pkg = pkgs[prog]
-        gdir = os.path.join(mod, pkg)
-        complaint = typecheck(mod, pkg)
+        gdir = os.path.join(outdir, pkg)
+        complaint = typecheck(mod, os.path.relpath(gdir, mod))
         if complaint:
-            tc_violations.append({"property": prop, "harness": "go build", "kind": "typecheck", "label": "generated Go does not type-check", "site": prog,
-                                  "fingerprint": "c02|%s|typecheck" % prog, "detail": complaint, "vector": [], "program": prog})
+            tc_violations.append({"property": prop, "harness": "go build", "kind": "typecheck", "label": "generated Go does not type-check", "site": label,
+                                  "fingerprint": "c02|%s|typecheck" % label, "detail": complaint, "vector": [], "program": label})
             continue
         try:
             tables, entries, problems, extra_imports = go_tables(models, prog, gdir, pkgs)
@@ -173,22 +195,33 @@ def run(prop, spec, tier, scratch, known, vcheck):
             inconclusive.append("oracle model for %s: %s" % (prog, e))
             continue
         inconclusive += problems
-        hdir = os.path.join(scratch, "harness_" + pkg)
+        hdir = os.path.join(scratch, "harness_" + variant + pkg)
         os.makedirs(hdir)
         genpipe.sync_rt(VERIF, hdir, pkg)
         open(os.path.join(hdir, "zz_verif_c02.go"), "w").write(tmpl.replace("PKGNAME", pkg).replace("MODEL_TABLES", tables).replace("EXTRA_IMPORTS", extra_imports))
         group = {"dir": gdir, "overlay": hdir}
         bound = spec["elems"][tier]
-        big = [e for e, ent in zip(entries, struct_entries(models, prog)) if len(ent["fields"]) > 6]
+        only = spec.get("slim_entries", {}).get(tier) if variant == "slim" else spec.get("entries_only", {}).get(tier, {}).get(prog)
+        if only is not None:
+            entries = [e for e in entries if e in only]
+        nfields = {"VerifC02_" + re.sub(r"\W", "_", ent["qual"]): len(ent["fields"]) for ent in struct_entries(models, prog)}
+        big = [e for e in entries if nfields.get(e, 0) > 6]
         small = [e for e in entries if e not in big]
+        # entries whose path count explodes with the tier's container bound run with a smaller one (stated in the evidence)
+        over = spec.get("elems_override", {}).get(tier, {})
+        reduced = [e for e in entries if e in over]
+        small = [e for e in small if e not in reduced]
+        big = [e for e in big if e not in reduced]
         for i in range(0, len(small), 3):
-            jobs.append({"group": group, "entries": small[i:i + 3], "bound": bound, "prog": prog, "par": 1})
+            jobs.append({"group": group, "entries": small[i:i + 3], "bound": bound, "prog": label, "par": 1})
         for e in big:
-            jobs.append({"group": group, "entries": [e], "bound": bound, "prog": prog, "par": 6})
+            jobs.append({"group": group, "entries": [e], "bound": bound, "prog": label, "par": 6})
+        for e in reduced:
+            jobs.append({"group": group, "entries": [e], "bound": over[e], "prog": label, "par": 4})
 
     def run_job(job):
         g = job["group"]
-        out = os.path.join(scratch, "res_%s_%s.json" % (os.path.basename(g["dir"]), job["entries"][0]))
+        out = os.path.join(scratch, "res_%s_%s.json" % (re.sub(r"\W", "_", job["prog"]), job["entries"][0]))
         cmd = [vcheck.GOSE, "run", "-dir", g["dir"], "-overlay", g["overlay"], "-property", prop, "-out", out, "-bound", str(job["bound"]), "-max-decisions", "3000", "-wall", str(spec.get("wall", {}).get(tier, 240))]
         for e in job["entries"]:
             cmd += ["-entry", e]
@@ -226,14 +259,14 @@ def run(prop, spec, tier, scratch, known, vcheck):
                     v["param"], v["bound"] = 0, job["bound"]
                     violations.append((v, job))
     exit_code, new = 0, 0
-    os.makedirs(os.path.join(VERIF, "replays"), exist_ok=True)
+    os.makedirs(REPLAYS, exist_ok=True)
     seen = set()
     for v in tc_violations:
         k = vcheck.match_known(known, prop, v["fingerprint"])
         if k:
             lines.append("KNOWN-FINDING: property=%s %s" % (prop, k["what"]))
             continue
-        path = os.path.join(VERIF, "replays", "%s-%s.json" % (prop, hashlib.sha1(v["fingerprint"].encode()).hexdigest()[:10]))
+        path = os.path.join(REPLAYS, "%s-%s.json" % (prop, hashlib.sha1(v["fingerprint"].encode()).hexdigest()[:10]))
         v["confirmed_by"] = "go build of the generated package fails"
         json.dump(v, open(path, "w"), indent=1)
         lines.append("VIOLATION property=%s replay=%s" % (prop, path))
@@ -253,7 +286,7 @@ def run(prop, spec, tier, scratch, known, vcheck):
         if not ok:
             inconclusive.append("ENGINE-MISMATCH: counterexample %s did not reproduce natively: %s" % (fp, how))
             continue
-        path = os.path.join(VERIF, "replays", "%s-%s.json" % (prop, hashlib.sha1(fp.encode()).hexdigest()[:10]))
+        path = os.path.join(REPLAYS, "%s-%s.json" % (prop, hashlib.sha1(fp.encode()).hexdigest()[:10]))
         v["confirmed_by"] = how
         v["program"] = job["prog"]
         json.dump(v, open(path, "w"), indent=1)
